@@ -323,8 +323,13 @@ def _array_bases(a, out=None, depth=0):
     return out
 
 
+_MATCH_HEADS = (z3.Z3_OP_SELECT, z3.Z3_OP_UNINTERPRETED, z3.Z3_OP_DT_ACCESSOR, z3.Z3_OP_DT_CONSTRUCTOR)
+
+
 def _analyze(nm):
-    """-> (bound consts, patterns); pattern = (term, [(argpos, var index)], is_pred)"""
+    """-> (bound consts, patterns, explicit?); pattern = (term, set of var indices, tier).
+    A pattern is a Select / uninterpreted application containing bound variables in which every
+    variable-containing argument is itself a bound variable or a (nested) matchable application."""
     if nm in _ANALYSIS:
         return _ANALYSIS[nm]
     kind, ps, fn = _Q[nm]
@@ -335,91 +340,143 @@ def _analyze(nm):
     LAZY_FACTS[:] = keep      # facts about the analysis-only bound constants are of no use
     ids = {b.get_id(): n for n, b in enumerate(bs)}
     memo = {}
+    mmemo = {}
+
+    def matchable(e):
+        """e contains vars; can it be matched structurally?"""
+        i = e.get_id()
+        if i in mmemo:
+            return mmemo[i]
+        if i in ids:
+            r = True
+        elif not z3.is_app(e) or e.decl().kind() not in _MATCH_HEADS:
+            r = False
+        else:
+            r = all((not _contains_any(c, ids, memo)) or matchable(c) for c in e.children())
+        mmemo[i] = r
+        return r
+
+    def vars_of(e, acc):
+        if e.get_id() in ids:
+            acc.add(ids[e.get_id()])
+        elif z3.is_app(e):
+            for c in e.children():
+                if _contains_any(c, ids, memo):
+                    vars_of(c, acc)
+        return acc
+
     pats = []
     explicit = None
-    if nm in _PATS:
+    src = body
+    if pat_terms is not None:
         explicit = {t.get_id() for t in pat_terms}
-    for e in _subterms(z3.And(body, *[t == t for t in pat_terms]) if nm in _PATS else body):
+        src = z3.And(body, *[t == t for t in pat_terms])
+    for e in _subterms(src):
         if not z3.is_app(e) or e.num_args() == 0:
             continue
         k = e.decl().kind()
         if k not in (z3.Z3_OP_SELECT, z3.Z3_OP_UNINTERPRETED):
             continue
-        if not _contains_any(e, ids, memo):
+        if not _contains_any(e, ids, memo) or not matchable(e):
             continue
-        binds = []
-        ok = True
-        for pos, a in enumerate(e.children()):
-            if a.get_id() in ids:
-                binds.append((pos, ids[a.get_id()]))
-            elif _contains_any(a, ids, memo):
-                ok = False
-                break
         if explicit is not None and e.get_id() not in explicit:
             continue
-        if ok and binds:
-            # 'guard' patterns: membership in the allocation set (Array Ref->Bool); used only as a last resort
+        tier = 0
+        if z3.is_bool(e):
+            tier = 2 if (k == z3.Z3_OP_SELECT and e.arg(0).sort().domain() == RefS) else 1
+        if explicit is not None:
             tier = 0
-            if z3.is_bool(e):
-                tier = 2 if (k == z3.Z3_OP_SELECT and e.arg(0).sort().domain() == RefS) else 1
-            if explicit is not None:
-                tier = 0
-            pats.append((e, binds, tier))
-    _ANALYSIS[nm] = (bs, pats)
+        pats.append((e, vars_of(e, set()), tier))
+    _ANALYSIS[nm] = (bs, pats, explicit is not None, ids, memo)
     return _ANALYSIS[nm]
 
 
+def _match(p, g, ids, memo, binding):
+    """structural match of pattern p against ground term g; arrays that are ground in the pattern are
+    compared modulo Store chains / ite.  Extends `binding` (var index -> term); -> bool"""
+    pi = p.get_id()
+    if pi in ids:
+        v = ids[pi]
+        if p.sort() != g.sort():
+            return False
+        if v in binding:
+            return binding[v].eq(g)
+        binding[v] = g
+        return True
+    if not _contains_any(p, ids, memo):
+        if p.eq(g):
+            return True
+        if z3.is_array(p) and z3.is_array(g) and p.sort() == g.sort():
+            return bool(_array_bases(p) & _array_bases(g))
+        return False
+    if z3.is_array(g):
+        g = _array_base(g)
+    if not z3.is_app(g) or g.num_args() != p.num_args():
+        return False
+    dp, dg = p.decl(), g.decl()
+    if dp.kind() != dg.kind():
+        return False
+    if dp.kind() in (z3.Z3_OP_UNINTERPRETED, z3.Z3_OP_DT_ACCESSOR, z3.Z3_OP_DT_CONSTRUCTOR) and not dp.eq(dg):
+        return False
+    for i in range(p.num_args()):
+        if not _match(p.arg(i), g.arg(i), ids, memo, binding):
+            return False
+    return True
+
+
 def _index_ground(phi):
-    """ground Select / UF applications of phi, keyed for matching"""
-    sel, uf = {}, {}
-    for e in _subterms(phi):
-        if not z3.is_app(e) or e.num_args() == 0:
-            continue
-        k = e.decl().kind()
-        if k == z3.Z3_OP_SELECT or k == z3.Z3_OP_STORE:
-            # (a store also mentions its index)
-            for b in _array_bases(e.arg(0)):
-                sel.setdefault(b, []).append(e)
-        elif k == z3.Z3_OP_UNINTERPRETED:
-            uf.setdefault(e.decl().name(), []).append(e)
-    return sel, uf
+    raise NotImplementedError
 
 
 def _trigger_candidates(nm, index):
-    """per bound variable: list of candidate ground terms, or None when the variable has no pattern.
-    Patterns are tried in tiers (0: non-boolean terms, 1: boolean membership tests, 2: allocation guards);
-    a variable takes its candidates from the first tier that yields any."""
-    bs, pats = _analyze(nm)
-    sel, uf = index
-    per_tier = [[None] * len(bs) for _ in range(3)]
-    for (t, binds, tier) in pats:
-        cands = per_tier[tier]
+    """-> ('tuples', [tuple of terms]) when some pattern binds all variables (joint matches only), else a
+    per-variable list of candidate terms (None for a variable without pattern).  Patterns are tried in tiers
+    (0: non-boolean terms, 1: membership tests, 2: allocation guards); first tier that yields anything wins."""
+    bs, pats, is_explicit, ids, memo = _analyze(nm)
+    sel, uf, allsel = index
+    n = len(bs)
+    per_tier = [[None] * n for _ in range(3)]
+    joint = [None, None, None]
+    for (t, vs, tier) in pats:
         k = t.decl().kind()
         if k == z3.Z3_OP_SELECT:
-            grounds = []
-            for b in _array_bases(t.arg(0)):
-                grounds.extend(sel.get(b, []))
+            if _contains_any(t.arg(0), ids, memo):
+                grounds = allsel
+            else:
+                grounds = []
+                for b in _array_bases(t.arg(0)):
+                    grounds.extend(sel.get(b, []))
         else:
             grounds = uf.get(t.decl().name(), [])
-        for _, v in binds:
+        cands = per_tier[tier]
+        for v in vs:
             if cands[v] is None:
                 cands[v] = {}
+        covers = len(vs) == n and n > 1
+        if covers and joint[tier] is None:
+            joint[tier] = {}
         for g in grounds:
-            if k != z3.Z3_OP_SELECT:
-                if g.num_args() != t.num_args():
+            if g.decl().kind() == z3.Z3_OP_STORE and k == z3.Z3_OP_SELECT:
+                # a store mentions an index of the array: match (array, index) only
+                binding = {}
+                if not (_match(t.arg(0), g.arg(0), ids, memo, binding) and _match(t.arg(1), g.arg(1), ids, memo, binding)):
                     continue
-                bpos = {p for p, _ in binds}
-                if any((i not in bpos) and not g.arg(i).eq(t.arg(i)) for i in range(t.num_args())):
+            else:
+                binding = {}
+                if not _match(t, g, ids, memo, binding):
                     continue
-            for pos, v in binds:
-                if pos >= g.num_args():
-                    continue
-                a = g.arg(pos)
-                if a.sort() != bs[v].sort():
-                    continue
-                cands[v][a.get_id()] = a
+            for v, term in binding.items():
+                cands[v][term.get_id()] = term
+            if covers and len(binding) == n:
+                tup = tuple(binding[i] for i in range(n))
+                joint[tier][tuple(x.get_id() for x in tup)] = tup
+    for tier in range(3):
+        if joint[tier]:
+            return ('tuples', list(joint[tier].values()))
+    if is_explicit and any(j is not None for j in joint):
+        return ('tuples', [])
     out = []
-    for v in range(len(bs)):
+    for v in range(n):
         chosen = None
         for tier in range(3):
             c = per_tier[tier][v]
@@ -473,6 +530,7 @@ class _Grounder:
         self.gen = {}                # term id -> round in which it first appeared
         self.sel = {}                # array-base id -> [select/store terms]
         self.uf = {}                 # decl name -> [applications]
+        self.allsel = []             # every select/store term
         self.pool = dict(idx={}, int={}, ref={}, str={}, real={}, bysort={})
         self.ph = {}                 # placeholder name -> set of polarities {+1,-1}
         self.exact_done = set()      # (name, polarity) already skolemised
@@ -565,6 +623,7 @@ class _Grounder:
                 if k == z3.Z3_OP_SELECT or k == z3.Z3_OP_STORE:
                     for b in _array_bases(ch[0]):
                         self.sel.setdefault(b, []).append(e)
+                    self.allsel.append(e)
                     ix = ch[1]
                     isrt = ix.sort()
                     if isrt == z3.IntSort():
@@ -578,6 +637,7 @@ class _Grounder:
                     self.uf.setdefault(nm, []).append(e)
                     if nm in RecFun.registry:
                         self.recapps.append(e)
+                        self.recgen.setdefault(i, max(0, rnd - 1))
             if s == RefS:
                 pool['ref'][i] = e
             elif s == StrS:
@@ -647,7 +707,7 @@ class _Grounder:
         while self.step_exact(rnd):
             progress = True
         new = []
-        index = (self.sel, self.uf)
+        index = (self.sel, self.uf, self.allsel)
         for nm, pols in list(self.ph.items()):
             kind, ps, fn = _Q[nm]
             P = z3.Bool(nm)
@@ -656,14 +716,18 @@ class _Grounder:
                 if not weak:
                     continue
                 cands = [self._pool_for(p) for p in ps]
+                tuples = None
                 if self.triggers:
                     tc = _trigger_candidates(nm, index)
-                    cands = [c if t is None else t for c, t in zip(cands, tc)]
-                    cands = [[t for t in c if self.gen.get(t.get_id(), 0) < MAX_GEN] for c in cands]
+                    if isinstance(tc, tuple):
+                        tuples = [ts for ts in tc[1] if all(self.gen.get(t.get_id(), 0) < MAX_GEN for t in ts)]
+                    else:
+                        cands = [c if t is None else t for c, t in zip(cands, tc)]
+                        cands = [[t for t in c if self.gen.get(t.get_id(), 0) < MAX_GEN] for c in cands]
                 if self.ninst > MAX_TOTAL:
                     raise GroundingError('more than %d quantifier instances' % MAX_TOTAL)
                 seen = self.used.setdefault((nm, pol), set())
-                for ts in itertools.product(*cands):
+                for ts in (tuples if tuples is not None else itertools.product(*cands)):
                     key = tuple(t.get_id() for t in ts)
                     if key in seen:
                         continue
